@@ -591,8 +591,8 @@ def check_unary(part, cx, a):
     detail = dict(what='unary', kind=cx.kind, p=p, a=list(a))
     out = []
 
-    def chk(key, got, exp, fmt=show):
-        out.append((key, got, got == exp))
+    def chk(key, got, exp, fmt=show, op=None):
+        out.append((op or key, got, got == exp))      # op: name independent of the classification of a mismatch
         part.case(nontrivial=bool(a))
         if got != exp:
             part.violation(f'C23:{key}', f'a={R.terms(a)} over GF({p}) [{cx.kind}]: got {fmt(got)}, expected {fmt(exp)}', detail)
@@ -632,7 +632,7 @@ def check_unary(part, cx, a):
         # inside that class the fallback law is "returns 0"; everything else is an ordinary violation
         got, exp = ev(lambda: A(x)), R.evaluate(a, x % p, p)
         known = cx.binary and x % 2 == 0 and bool(a) and a[0] == 1 and got == 0 and type(got) is int
-        chk('call:x-multiple-of-p' if known else 'call:wrong', got, exp, lambda r: f'a({x}) = {r!r}')
+        chk('call:x-multiple-of-p' if known else 'call:wrong', got, exp, lambda r: f'a({x}) = {r!r}', op='call')
     chk('monic', ev(lambda: A.monic()), R.monic(a, p))
     chk('monic:lc_pinv', ev(lambda: A.monic(lc_pinv=True)), (R.monic(a, p), R.inv_mod(a[-1], p) if a else 0))
     chk('reverse', ev(lambda: A.reverse()), R.reverse(a))
